@@ -153,6 +153,10 @@ func (s *Scheduler) finish(me int) {
 // ---------------------------------------------------------------------------------------
 // map-order seam
 
+// Instrumented / MapRangeSites are set by a file the instrumenter generates into this package.
+var Instrumented bool
+var MapRangeSites int
+
 var orderChooser Chooser
 
 // MapPoints counts the range points passed since the last SetOrderChooser.
